@@ -1546,6 +1546,12 @@ impl Vm {
             .stack
             .truncate(handler.init_stack_size);
         self.push(exc_object);
+        if handler.frame_count < self.active_fiber().frames.len() {
+            // The frame the error was raised in is discarded: for the surviving frame the
+            // position of the error is the call it was executing.
+            let call_ip = self.active_fiber().frames[handler.frame_count - 1].ip;
+            self.active_fiber_mut().error_ip = Some(call_ip);
+        }
         self.active_fiber_mut().frames.truncate(handler.frame_count);
         self.handling_exception = handler.has_catch_block();
         self.active_fiber_mut().current_frame_mut().unwrap().ip = handler.catch_ip;
